@@ -77,13 +77,17 @@ def replay(case):
 
 def runs(tier):
     q = tier == 'quick'
-    base = dict(MaxD=3 if q else 4, Sizes={2, 3}, NSingle={0, 2} if q else {0, 1, 2}, NTwo={1, 3} if q else {1, 2, 3},
-                Seeds={1, 2} if q else {1, 2, 3, 4, 5}, ExhaustiveD2=True,
+    base = dict(MaxD=3, Sizes={2, 3}, NSingle={0, 2} if q else {0, 1, 2}, NTwo={1, 3} if q else {1, 2, 3},
+                Seeds={1, 2} if q else {1, 2, 3, 4}, ExhaustiveD2=True,
                 UlamGrids={(2, 2), (2, 3), (3, 2), (2, 2, 2), (3, 2, 2)} if q else
                 {(2, 2), (2, 3), (3, 2), (3, 3), (2, 2, 2), (3, 2, 2), (2, 3, 2), (2, 2, 3)},
                 UlamN={1, 5, 9} if q else {1, 3, 5, 9, 14})
-    return [dict(name='slim', module='Slim', constants=base,
-                 invariants=['ColumnSumsZero', 'OffDiagNonNeg', 'UlamTotal'])]
+    out = [dict(name='slim', module='Slim', constants=base, invariants=['ColumnSumsZero', 'OffDiagNonNeg', 'UlamTotal'])]
+    if not q:
+        out.append(dict(name='slim4', module='Slim', invariants=['ColumnSumsZero', 'OffDiagNonNeg', 'UlamTotal'],
+                        constants=dict(base, MaxD=4, Sizes={2}, NSingle={1}, NTwo={2}, Seeds={1, 2}, ExhaustiveD2=False,
+                                       UlamGrids={(2, 2)}, UlamN={1})))
+    return out
 
 
 def main(tier):
